@@ -7,7 +7,7 @@ from pathlib import Path
 ROOT = Path(__file__).resolve().parents[2]
 
 # properties whose checks have been reviewed and pass on the current tree
-READY = {"C16", "C07", "C01", "C02", "C03", "C19", "C20", "C08", "C11", "C12", "C06", "C13", "C04", "C05", "C17", "C09", "C10"}
+READY = {"C16", "C07", "C01", "C02", "C03", "C19", "C20", "C08", "C11", "C12", "C06", "C13", "C04", "C05", "C17", "C09", "C10", "C14", "C15", "C18"}
 
 NOT_YET = "check not built yet in this round (see DESIGN.md §9 construction order)"
 
